@@ -27,7 +27,7 @@ INVARIANTS
   Inv_Conserved
 PROPERTIES
   Act_C17_Append
-  Act_C17_Aggregate_ModF15
+  Act_C17_Aggregate
   Act_C17_History
   Act_C17_Authority
   Act_Rejected_NoEffect
